@@ -87,7 +87,8 @@ func (in *Interp) renderArg(spec string, verb byte, arg Value) Str {
 		return strOf("%!" + string(verb) + "(<nil>)")
 	}
 	if verb == 'T' {
-		return strOf(ifc.t.String())
+		// reflect prints named types qualified by the package *name* (not the import path)
+		return strOf(types.TypeString(ifc.t, func(p *types.Package) string { return p.Name() }))
 	}
 	// error / Stringer for the string-ish verbs
 	if verb == 'v' || verb == 's' || verb == 'q' {
